@@ -64,6 +64,8 @@ def order_for(path, all_fast=False):
     first = sorted([p for p in anch if p in FAST], key=lambda p: WALL[p])
     slow = ['C01', 'C13'] + [p for p in SLOW_IF_ANCHORED if p in anch]
     rest = [p for p in FAST if p not in first] if all_fast else []
+    if all_fast == 'rest-only':
+        return [p for p in FAST if p not in first] + [p for p in ('C20',) if p not in slow]
     return first + slow + rest
 
 
@@ -184,9 +186,13 @@ def run_mutant(lane, m, args):
             res['suite_killed'] = True
             res['wall'] = round(time.time() - t0, 1)
             return res
+    if args.suite_only:
+        res['wall'] = round(time.time() - t0, 1)
+        res['suite_only'] = True
+        return res
     env = dict(os.environ, VERIF_REPO=wt, VERIF_EVIDENCE_DIR=evd, VERIF_JOBS=str(args.jobs), VERIF_SCRATCH=f'/tmp/mutscratch-{lane}')
     os.makedirs(f'/tmp/mutscratch-{lane}', exist_ok=True)
-    for p in order_for(m['file'], args.all_fast):
+    for p in order_for(m['file'], 'rest-only' if args.rest_only else args.all_fast):
         r = sh(f'./check {p} --tier quick', cwd=VERIF, env=env)
         fps = [l.strip()[13:] for l in r.stdout.splitlines() if l.strip().startswith('fingerprint:')]
         res['checks'][p] = dict(rc=r.returncode, fp=fps[:2])
@@ -207,11 +213,22 @@ def main():
     ap.add_argument('--jobs', type=int, default=8)
     ap.add_argument('--out', default=os.path.join(VERIF, 'mutation', 'results.jsonl'))
     ap.add_argument('--limit', type=int, default=0)
+    ap.add_argument('--rest-only', action='store_true', help='run only the behaviour checks that are NOT anchored at the mutated file (second pass over survivors)')
     ap.add_argument('--all-fast', action='store_true', help='also run the behaviour checks not anchored at the mutated file')
     ap.add_argument('--offset', type=int, default=0)
     ap.add_argument('--stride', type=int, default=1, help='take every n-th mutant (sampling the site list, for a first pass)')
+    ap.add_argument('--suite-only', action='store_true', help='python mutants: only run the pinned suite (phase 1)')
+    ap.add_argument('--only-ids-from', help='run only the mutants that a --suite-only results file lists as passing the suite')
+    ap.add_argument('--only-survivors-from', help='re-run only the mutants a results file lists as survivors (use with --all-fast)')
     args = ap.parse_args()
     muts = collect(args.targets)
+    if args.only_survivors_from:
+        keep = {r['id'] for r in map(json.loads, open(args.only_survivors_from)) if 'checks' in r and r['checks'] and not r.get('killed_by')}
+        muts = [m for m in muts if m['id'] in keep]
+    if args.only_ids_from:
+        keep = {r['id'] for r in map(json.loads, open(args.only_ids_from)) if r.get('suite_only') and not r.get('suite_killed')
+                and r.get('suite') != 'syntax-error'}
+        muts = [m for m in muts if m['id'] in keep]
     os.makedirs(os.path.dirname(args.out), exist_ok=True)
     done = set()
     if os.path.exists(args.out):
@@ -244,7 +261,7 @@ def main():
                 with lock:
                     with open(args.out, 'a') as f:
                         f.write(json.dumps(res) + '\n')
-                    k = res.get('killed_by') or ('suite' if res.get('suite_killed') else 'SURVIVED' if 'checks' in res and not res.get('error') else 'n/a')
+                    k = res.get('killed_by') or ('suite' if res.get('suite_killed') else 'suite-passed' if res.get('suite_only') else 'SURVIVED' if 'checks' in res and not res.get('error') else 'n/a')
                     print(f'[{lane}] {m["file"].split("/")[-1]}:{m["line"]} {m["op"]} -> {k} ({res.get("wall")}s)', flush=True)
         finally:
             with lock:
